@@ -153,3 +153,13 @@ func init() {
 		Stages: []Stage{{Name: "histories", Pkg: "./mon/c12", Race: true, Procs: 8, Batches: [2]int{4, 8}, TimeoutS: [2]int{1200, 3600}, HangIsViolation: true}},
 	}
 }
+
+func init() {
+	properties["C11"] = Property{
+		Level: "exploration",
+		Rule:  "one case = one client (location) of one concurrent round: 8-16 clients released on a barrier against a fresh engine, each issuing 12-21 generated requests (facts, rules, events, searches, queries, removes) to its own location, starting with the engine's first requests; half of the rounds through the HTTP service (httptest); seeded delays at sys.storage.gap / sys.open.gap in two thirds of the rounds; compared request by request and by final state with the same sequences run alone on another fresh engine; run under the race detector; non-trivial = at least two clients overlapped in time; distinct by (seed, round, client)",
+		Floor: [2]int{20, 200},
+		Assumptions: []string{"schedules are sampled (barrier start + injected delays), not enumerated", "engines are created sequentially by the harness (NewSystem writes a process-wide parameter; DESIGN §6.6)"},
+		Stages: []Stage{{Name: "locations", Pkg: "./mon/c11", Race: true, Procs: 8, Batches: [2]int{3, 8}, TimeoutS: [2]int{1200, 3600}, HangIsViolation: true}},
+	}
+}
